@@ -46,6 +46,7 @@ CONSTANTS
     FIX_PruneEmpty, \* TRUE: handleSubscribe drops the records it created when nothing was accepted (repaired)
     AllowLate,      \* TRUE: a stream may hand one more frame to the engine after it left the pool (bound of a configuration)
     FlipAccounts,   \* accounts whose membership changes during a run (bound of a configuration)
+    TrackEvicted,   \* TRUE: keep the ghost `evicted` (only the configurations about EvictedStayOut need it)
     AtomicCheck,    \* TRUE: nothing is scheduled between a subscribe's membership check and its lock (bound of a
                     \* configuration; FALSE = as the code is: the check happens before remoteMu is taken)
     \* ---- client half
@@ -321,7 +322,7 @@ DropSpaceOf(S, sp) ==
 
 EvictWhere(sp, cond(_), gone) ==
     /\ NoCheckGap /\ MuFree
-    /\ evicted' = evicted \cup gone
+    /\ evicted' = IF TrackEvicted THEN evicted \cup gone ELSE evicted
     /\ LET S == {x \in Sids : PatsOf(recPat[x], sp) # {} /\ cond(x)}
            r2 == IF sp \in remoteDom /\ sp \in GoodSpaces
                    THEN [refs EXCEPT ![sp] = [p \in PatU |->
